@@ -1,1 +1,41 @@
-PROP = {'coq': ['theories/Properties/C12.v'], 'suites': [{'bin': 'obs-numscript', 'corpus': 'numscript'}], 'trusted': ['hand-written models Numscript/{Funding,VM,Syntax,Compiler,Run,Sem}.v of internal/machine/{funding,allotment,portion,monetary}.go, vm/{machine,run,stack}.go, script/compiler/*.go; tied on every run by correspondence: real compiler + machine vs model on generated programs x variable maps x stores (bytecode, resources, sources, needed balances, lock sets, postings, metadata, printed values, error class, panic flag), and Sem (source semantics) vs the real run end to end', 'the real ANTLR lexer/parser produces the AST the model consumes (parse-tree dump harness/nsx/ast.go is mechanical glue); machine.NewValueFromString / ParsePortionSpecific enter as harness-computed tables', 'math/big, encoding/json are exercised, not modelled; Go aliasing inside a shared *Program is covered by the run-twice oracle only'], 'assumptions': ['the ANTLR parser terminates and does not panic (fuzzed, not proved)'], 'manifest': {'text': "Coq theorems: the compiled-and-run pipeline never reaches a Panic outcome (every Go panic site of the machine is an explicit Panic constructor of the model; corollary of compile_correct since Sem has no panic), execution takes exactly one pass over the straight-line code (termination), every non-success outcome is one of the defined classes, and the run is a function of (program, variables, store) (no residue). Partial for the clause 'every byte string': the ANTLR front end is not modelled; the harness fuzzes it (malformed stream) for panics/hangs.", 'note': 'Trusted as C08. Parser panic/hang freedom and Go-level aliasing are covered by the harness (recover, watchdog, run-twice), not by a theorem.', 'technique': 'Coq proof (no Panic outcome; structural termination) + differential correspondence + malformed-input stream with recover/watchdog', 'design_ref': 'DESIGN.md 5 C12'}}
+PROP = {'coq': ['theories/Properties/C12.v'],
+ 'suites': [{'bin': 'obs-numscript', 'corpus': 'numscript'}],
+ 'trusted': ['hand-written models Numscript/{Funding,VM,Syntax,Compiler,Run,Sem}.v of '
+             'internal/machine/{funding,allotment,portion,monetary}.go, vm/{machine,run,stack}.go, script/compiler/*.go; tied on every run '
+             'by correspondence: real compiler + machine vs model on generated programs x variable maps x stores (bytecode, resources, '
+             'sources, needed balances, lock sets, postings, metadata, printed values, error class, panic flag), and Sem (source '
+             'semantics) vs the real run end to end',
+             'the real ANTLR lexer/parser produces the AST the model consumes (parse-tree dump harness/nsx/ast.go is mechanical glue); '
+             'machine.NewValueFromString / ParsePortionSpecific enter as harness-computed tables',
+             'math/big, encoding/json are exercised, not modelled; Go aliasing inside a shared *Program is covered by the run-twice oracle '
+             'only'],
+ 'assumptions': ['front-end side conditions of the theorems, both executable (Numscript/CompileCorrectProps.v in_fragment = norm_script && '
+                 'statement list non-empty): ratio literals reach the model in lowest terms (they are big.Rat values, math/big keeps them '
+                 "normalised; the compiler's constant table compares ratios by cross-multiplication, so the unconditional statement is "
+                 'false of the model: C08_unconditional_refuted_unnormalised_ratio) and a script has at least one statement (NumScript.g4 '
+                 '`script` rule; an empty program makes Machine.Execute index Instructions[0]: C08_unconditional_refuted_empty_script)',
+                 'typing of the values handed over by the glue: every value SetVarsFromJSON stores for a resource Variable{Typ,Name} has '
+                 'type Typ (vars_typed (p_res p) vars; implied by the script-level form "every supplied plain variable has its declared type", vars_typed_script, theorems *_script) and every NewValueFromString(Typ, raw) result has type Typ (parse_typed store); '
+                 'both functions type-check in Go and enter the model as harness-computed tables; without it the model predicts a panic '
+                 '(C12_no_panic_without_typing_refuted)',
+                 'the ANTLR parser terminates and does not panic (fuzzed by the malformed-input stream, not proved)',
+                 'C12_deterministic / C12_no_residue hold of the model by construction (pure function, immutable program value); absence '
+                 'of shared mutable state in the Go *Program is covered by the run-twice / concurrent oracle of the harness only'],
+ 'manifest': {'text': 'Coq theorems over the validated models: C12_no_panic - for every script of the language, variable map, store and '
+                      'extra metadata keys, neither the outcome of compile -> set vars -> ResolveResources nor the run result '
+                      '(ResolveBalances -> Execute -> vm.Run) is a Panic; every Go panic site (typed pop, empty pop, BUMP range, nil-map '
+                      'write in REPAY/SAVE, resolve type assertions, empty program, non-empty final stack, unprintable metadata) is an '
+                      'explicit Panic constructor of the model; corollary of compiler correctness (C08) since the source semantics has no '
+                      'panic, plus panic-freedom of resource/balance resolution on compiled programs. C12_terminates / '
+                      'C12_tick_loop_is_fold: the Go tick loop with explicit program counter needs at most len(Instructions) ticks and '
+                      'equals the structural fold (no jumps: P strictly increases). C12_error_classes (unconditional): every failure is of '
+                      'a class defined for its stage. C12_deterministic / C12_no_residue: the outcome is a function of (program, '
+                      "variables, store) - by construction of the model. Partial for the clause 'every byte string': the ANTLR front end "
+                      'is not modelled; the harness fuzzes it.',
+              'note': 'Trusted as C08. Parser panic/hang freedom and Go-level aliasing are covered by the harness (recover, watchdog, '
+                      'run-twice), not by a theorem. The model is of the repaired tree: the three pre-repair panics (source allotment not '
+                      'summing to 100 %, save from a non-source account, two balance() variables on one account) are fixed in /repo and '
+                      'kept as corpus replays; C12_example exercises the latter two shapes on the repaired model.',
+              'technique': 'Coq proof (no Panic outcome; structural termination) + differential correspondence + malformed-input stream '
+                           'with recover/watchdog',
+              'design_ref': 'DESIGN.md 5 C12'}}
